@@ -89,7 +89,9 @@ Definition listen_tcb (h : header) (iss m : Z) : tcb :=
 Lemma syn_to_listen h iss m : syn_only h ->
   arrives_listen (mkSeg h []) iss m = LTcb (listen_tcb h iss m).
 Proof.
-  intros (Hs & Ha & Hr & Hf). unfold arrives_listen. tcb_simpl. rewrite Hr, Ha, Hs. reflexivity.
+  intros (Hs & Ha & Hr & Hf). unfold arrives_listen. tcb_simpl. rewrite Hr, Ha, Hs.
+  rewrite enqueue_synack. tcb_simpl. change (heap_push [] ?x) with [x].
+  unfold listen_tcb. rewrite Hr. reflexivity.
 Qed.
 
 (* process a flag-free, text-free segment at RCV.NXT-1 (the SYN copy queued by LISTEN) *)
